@@ -23,6 +23,8 @@ fn mk_val(t: &WT, x: u64) -> Val { match t { WT::I32 => Val::I32(x as u32 as i32
 /// A guest importing `subset` (in that order, foreign imports mixed in), with three ways to reach each import.
 pub fn guest(module: &str, subset: &[&ApiImport], foreign_at: &[usize]) -> String {
     let mut s = String::from("(module\n");
+    // a foreign memory import that merely happens to be called "memory" (marker: position 9999 in the foreign list)
+    if foreign_at.contains(&9999) { s.push_str("  (import \"env\" \"memory\" (memory 1))\n"); }
     for (k, i) in subset.iter().enumerate() {
         if foreign_at.contains(&k) { writeln!(s, "  (import \"env\" \"foreign{}\" (func $foreign{} (param i32) (result i32)))", k, k).unwrap(); }
         write!(s, "  (import \"{}\" \"{}\" (func ${}", module, i.name, i.name).unwrap();
@@ -44,7 +46,7 @@ pub fn guest(module: &str, subset: &[&ApiImport], foreign_at: &[usize]) -> Strin
     s
 }
 
-pub struct Inst { pub store: Store<State>, pub inst: wasmtime::Instance, pub pmem: Memory }
+pub struct Inst { pub store: Store<State>, pub inst: wasmtime::Instance, pub pmem: Memory, pub fmem: Option<Memory> }
 
 pub fn instantiate(engine: &Engine, wasm: &[u8], seed: u64) -> Result<Inst> {
     let module = Module::new(engine, wasm)?;
@@ -53,10 +55,14 @@ pub fn instantiate(engine: &Engine, wasm: &[u8], seed: u64) -> Result<Inst> {
     let pmem = Memory::new(&mut store, MemoryType::new(1, None))?;
     for a in 0..MEM { pmem.data_mut(&mut store)[a] = pinit(seed, a); }
     store.data_mut().pmem = Some(pmem);
+    let mut fmem: Option<Memory> = None;
     let imports: Vec<(String, String, wasmtime::ExternType)> = module.imports().map(|i| (i.module().to_string(), i.name().to_string(), i.ty())).collect();
     for (m, n, ty) in imports {
         match ty {
-            wasmtime::ExternType::Memory(_) => { linker.define(&store, &m, &n, pmem)?; }
+            wasmtime::ExternType::Memory(_) => {
+                // only the provider module's memory is the provider memory; any other imported memory is a foreign scratch memory
+                if m == shopify_function_trampoline::PROVIDER_MODULE_NAME { linker.define(&store, &m, &n, pmem)?; }
+                else { let f = Memory::new(&mut store, MemoryType::new(1, None))?; for a in 0..MEM { f.data_mut(&mut store)[a] = 0xEE; } fmem = Some(f); linker.define(&store, &m, &n, f)?; } }
             wasmtime::ExternType::Func(ft) => {
                 let name = n.clone(); let fty = ft.clone();
                 if m == "env" { linker.func_new(&m, &n, ft, move |_c, args, res| { res[0] = Val::I32(args[0].unwrap_i32().wrapping_add(1)); Ok(()) })?; continue; }
@@ -80,7 +86,7 @@ pub fn instantiate(engine: &Engine, wasm: &[u8], seed: u64) -> Result<Inst> {
     let inst = linker.instantiate(&mut store, &module)?;
     let gmem = inst.get_memory(&mut store, "memory").ok_or_else(|| anyhow!("guest memory export lost"))?;
     for a in 0..MEM { gmem.data_mut(&mut store)[a] = ginit(seed, a); }
-    Ok(Inst { store, inst, pmem })
+    Ok(Inst { store, inst, pmem, fmem })
 }
 
 fn diff(cur: &[u8], init: impl Fn(usize) -> u8) -> String {
@@ -94,6 +100,7 @@ pub fn call(i: &mut Inst, seed: u64, export: &str, params: &[(WT, u64)], nres: u
     i.store.data_mut().resp = resp.into(); i.store.data_mut().log.clear();
     let gmem = i.inst.get_memory(&mut i.store, "memory").unwrap();
     for a in 0..MEM { gmem.data_mut(&mut i.store)[a] = ginit(seed, a); i.pmem.data_mut(&mut i.store)[a] = pinit(seed, a); }
+    if let Some(f) = i.fmem { for a in 0..MEM { f.data_mut(&mut i.store)[a] = 0xEE; } }
     let f = match i.inst.get_func(&mut i.store, export) { Some(f) => f, None => return "NOEXPORT".into() };
     let args: Vec<Val> = params.iter().map(|(t, x)| mk_val(t, *x)).collect();
     let mut res = vec![Val::I32(0); nres];
@@ -101,6 +108,8 @@ pub fn call(i: &mut Inst, seed: u64, export: &str, params: &[(WT, u64)], nres: u
     let ret = match r { Ok(()) => format!("RET {}", if res.is_empty() { "-".to_string() } else { res.iter().map(|v| format!("{:x}", val_u64(v))).collect::<Vec<_>>().join(",") }), Err(_) => "TRAP".to_string() };
     if ret == "TRAP" { return "TRAP".into(); }
     let g = diff(gmem.data(&i.store), |a| ginit(seed, a)); let p = diff(i.pmem.data(&i.store), |a| pinit(seed, a));
+    // a foreign memory must never be touched: its changes are reported inside the provider column so that they differ from the spec
+    let p = match i.fmem { Some(f) => { let d = diff(f.data(&i.store), |_| 0xEE); if d == "-" { p } else { format!("{}+FOREIGN[{}]", p, d) } } None => p };
     format!("{} G {} P {} LOG {}", ret, g, p, if i.store.data().log.is_empty() { "-".to_string() } else { i.store.data().log.join(";") })
 }
 
@@ -158,7 +167,8 @@ pub fn run(args: &[String]) -> Result<()> {
             let mut names: Vec<String> = if id == 0 { imps.iter().map(|i| i.name.clone()).collect() } else if tier == "thorough" && id <= imps.len() { vec![imps[id - 1].name.clone()] } else {
                 let mut v: Vec<String> = imps.iter().filter(|i| r.chance(if strings.contains(&i.name.as_str()) { 75 } else { 40 })).map(|i| i.name.clone()).collect(); if v.is_empty() { v.push(strings[r.below(5) as usize].to_string()); } v };
             for k in (1..names.len()).rev() { let j = r.below(k as u64 + 1) as usize; names.swap(k, j); }
-            let foreign: Vec<usize> = (0..names.len()).filter(|_| r.chance(20)).collect();
+            let mut foreign: Vec<usize> = (0..names.len()).filter(|_| r.chance(20)).collect();
+            if id % 5 == 2 { foreign.push(9999); }
             let cseed = r.next_u64() % 1000;
             let mut calls = vec![];
             for _ in 0..ncalls {
